@@ -1,15 +1,19 @@
 #!/bin/bash
-# usage: tools/mutant.sh <patch.diff> <prop> [runs] [seed]
-# Applies a seeded change to /repo, runs one check, reverts. Prints DETECTED / MISSED.
+# usage: tools/mutant.sh <patch.diff (absolute path)> <prop> [runs] [seed]
+# Applies a seeded change to a scratch worktree of /repo HEAD (outside /repo and /verif), runs one
+# check against it (VERIF_REPO), removes the worktree. Prints DETECTED / MISSED.
+# (The registered way - git -C /repo apply, run, git -C /repo checkout -- . - gives the same result;
+# this variant leaves /repo alone so that other runs can go on meanwhile.)
 patch=$1; prop=$2; runs=${3:-400}; seed=${4:-1}
-cd /repo || exit 2
-if ! git diff --quiet; then echo "mutant.sh: /repo has uncommitted changes"; exit 2; fi
-if ! git apply --check "$patch" 2>/dev/null; then echo "mutant.sh: patch does not apply: $patch"; exit 2; fi
-git apply "$patch"
+wt=/tmp/mutwt.$$
+git -C /repo worktree add -q --detach $wt HEAD || exit 2
+if ! git -C $wt apply --check "$patch" 2>/dev/null; then echo "mutant.sh: patch does not apply: $patch"; git -C /repo worktree remove --force $wt; exit 2; fi
+git -C $wt apply "$patch"
 cd /verif
-VERIF_SEED=$seed VERIF_RUNS=$runs ./bin/verifcheck run --prop $prop --tier quick > /tmp/mutant.$$.log 2>&1
+VERIF_REPO=$wt VERIF_TAG=.mut$$ VERIF_SEED=$seed VERIF_RUNS=$runs ./bin/verifcheck.fg run --prop $prop --tier quick > /tmp/mutant.$$.log 2>&1
 rc=$?
-git -C /repo checkout -- . ; git -C /repo clean -fdq
+git -C /repo worktree remove --force $wt
+rm -f /verif/build/go.$prop.mut$$.mod /verif/build/go.$prop.mut$$.sum
 if [ $rc -eq 1 ]; then echo "DETECTED $prop $(basename $(dirname $patch))/$(basename $patch): $(grep -m1 'class=' /tmp/mutant.$$.log | cut -c1-260)";
 elif [ $rc -eq 0 ]; then echo "MISSED   $prop $(basename $(dirname $patch))/$(basename $patch) ($(tail -1 /tmp/mutant.$$.log))";
 else echo "ERROR rc=$rc $prop $patch"; tail -5 /tmp/mutant.$$.log; fi
